@@ -98,8 +98,10 @@ type c31World struct {
 	h     http.Handler // trustless-only gateway (Config.DeserializedResponses = false)
 	hd    http.Handler // gateway that also serves deserialized responses (raw blocks below a path)
 	cidOf map[int]cid.Cid
-	idOf  map[string]int // cid string -> node id
+	idOf  map[string]int // multihash -> node id (a block is identified by its multihash: CIDv0/v1 aliases are one block)
 }
+
+func c31Key(c cid.Cid) string { return string(c.Hash()) }
 
 func c31Store() (blockstore.Blockstore, format.DAGService, blockservice.BlockService) {
 	bs := blockstore.NewBlockstore(dssync.MutexWrap(ds.NewMapDatastore()))
@@ -120,14 +122,14 @@ func c31NewWorld() *c31World {
 }
 
 func (w *c31World) bind(id int, c cid.Cid) {
-	if old, ok := w.cidOf[id]; ok && !old.Equals(c) {
+	if old, ok := w.cidOf[id]; ok && !bytes.Equal(old.Hash(), c.Hash()) {
 		panic(fmt.Sprintf("c31: node %d bound to two CIDs", id))
 	}
-	if old, ok := w.idOf[c.String()]; ok && old != id {
+	if old, ok := w.idOf[c31Key(c)]; ok && old != id {
 		panic(fmt.Sprintf("c31: CID %s is both node %d and node %d (model blocks must be distinct)", c, old, id))
 	}
 	w.cidOf[id] = c
-	w.idOf[c.String()] = id
+	w.idOf[c31Key(c)] = id
 }
 
 // ---------------------------------------------------------------- HAMT hash (as ipld/unixfs/hamt: murmur3-64, bits from the MSB)
@@ -302,7 +304,7 @@ type c31Extractor struct {
 }
 
 func (e *c31Extractor) visit(c cid.Cid) int {
-	if id, ok := e.w.idOf[c.String()]; ok {
+	if id, ok := e.w.idOf[c31Key(c)]; ok {
 		return id
 	}
 	id := len(e.nodes) + 1
@@ -373,7 +375,7 @@ func c31SameShape(w *c31World, dag map[int]c31Node, names map[string]string, roo
 	}
 	for id2, n2 := range e.nodes {
 		c := w2.cidOf[id2+1]
-		id, ok := w.idOf[c.String()]
+		id, ok := w.idOf[c31Key(c)]
 		if !ok {
 			return "real block without model id: " + c.String()
 		}
@@ -387,7 +389,7 @@ func c31SameShape(w *c31World, dag map[int]c31Node, names map[string]string, roo
 			if nm != "" {
 				nm = names[nm]
 			}
-			if nm != r.Nm || l.Sub != r.Sub || l.Slot != r.Slot || w.idOf[w2.cidOf[r.To].String()] != l.To {
+			if nm != r.Nm || l.Sub != r.Sub || l.Slot != r.Slot || w.idOf[c31Key(w2.cidOf[r.To])] != l.To {
 				return fmt.Sprintf("node %d link %d: model %+v, real %+v", id, i, l, r)
 			}
 		}
@@ -795,7 +797,7 @@ func c31ReplayOne(i int, b *c31Beh, orderDiff, extra, reqs *int) M {
 		got := map[int]int{}
 		var seq []int
 		for j, blk := range car.blocks {
-			id, ok := w.idOf[blk.Cid().String()]
+			id, ok := w.idOf[c31Key(blk.Cid())]
 			if !car.hashOK[j] {
 				return fail(k+1, desc+fmt.Sprintf("AllBlocksVerify: block %d (%s, node %d) does not hash to its CID", j, blk.Cid(), id))
 			}
@@ -856,7 +858,7 @@ func (g *c31Gen) file(size int64) (format.Node, int64) {
 	g.nfile++
 	units := []int64{256, 1024, 4096, 16384, 65536, 262144}
 	unit := units[g.rng.Intn(len(units))]
-	for size/unit > 48 { // keep the number of blocks per file moderate
+	for size/unit > 20 { // keep the number of blocks per file moderate
 		unit *= 2
 	}
 	p := ihelpers.DagBuilderParams{
@@ -915,7 +917,7 @@ func (g *c31Gen) dir(prefix []string, depth int, n int, maxSize int64) format.No
 		p := append(append([]string{}, prefix...), name)
 		switch {
 		case depth < 2 && i%5 == 1:
-			nd := g.dir(p, depth+1, 2+g.rng.Intn(10), maxSize/2)
+			nd := g.dir(p, depth+1, 2+g.rng.Intn(7), maxSize/2)
 			ents = append(ents, ent{name, nd})
 			g.targets = append(g.targets, c31Target{path: p, c: nd.Cid()})
 		case prev != nil && i%7 == 3: // the same file under a second name: duplicate blocks
@@ -998,7 +1000,7 @@ func c31Record(t *testing.T) {
 	for tr := 0; tr < trees; tr++ {
 		w := c31NewWorld()
 		g := &c31Gen{w: w, rng: rng}
-		rootNd := g.dir(nil, 0, 6+rng.Intn(14), maxSize)
+		rootNd := g.dir(nil, 0, 6+rng.Intn(10), maxSize)
 		root := rootNd.Cid()
 		g.targets = append(g.targets, c31Target{path: nil, c: root})
 		e := &c31Extractor{w: w}
@@ -1022,9 +1024,9 @@ func c31Record(t *testing.T) {
 				st, body := w.getRaw(at, rp, k)
 				id := 0 // the node whose CID the body hashes to (0: none of the DAG's blocks)
 				if c31HashOK(tg.c, body) {
-					id = w.idOf[tg.c.String()]
+					id = w.idOf[c31Key(tg.c)]
 				}
-				vEmit(M{"ev": "Raw", "at": w.idOf[at.String()], "path": mp, "n": id, "hashOK": id != 0, "status": st, "len": len(body)})
+				vEmit(M{"ev": "Raw", "at": w.idOf[c31Key(at)], "path": mp, "n": id, "hashOK": id != 0, "status": st, "len": len(body)})
 				continue
 			}
 			rq := g.request(tg)
@@ -1032,11 +1034,11 @@ func c31Record(t *testing.T) {
 				"to": rq.To, "dups": rq.Dups, "size": tg.size})
 			car := w.getCar(root, tg.path, rq, k)
 			for j, blk := range car.blocks {
-				vEmit(M{"ev": "Block", "n": w.idOf[blk.Cid().String()], "hashOK": car.hashOK[j]})
+				vEmit(M{"ev": "Block", "n": w.idOf[c31Key(blk.Cid())], "hashOK": car.hashOK[j]})
 			}
 			rootID := 0
 			if len(car.roots) == 1 {
-				rootID = w.idOf[car.roots[0].String()]
+				rootID = w.idOf[c31Key(car.roots[0])]
 			}
 			off := ""
 			if car.status == 200 {
